@@ -168,8 +168,8 @@ def canon_tree(t, code):
 def rule_line(r):
     an = "-" if r["an"] == 0 else "a%d" % r["an"]
     tr = ["N" if e == 0 else str(e - 1) for e in r["t"]]
-    return "R %s %s %d %d %s %d %s" % (tname(r["l"]), an, r["c"], len(r["r"]), " ".join(tname(s) for s in r["r"]),
-                                       len(tr), " ".join(tr))
+    # no empty fields: the harness splits at single blanks (an empty right-hand side used to shift the translation count)
+    return " ".join(["R", tname(r["l"]), an, str(r["c"]), str(len(r["r"]))] + [tname(s) for s in r["r"]] + [str(len(tr))] + tr)
 
 
 # ----------------------------------------------------------------------------- harness runs
